@@ -25,6 +25,7 @@
 import IvpModel.Proofs.NormLemmas
 import IvpModel.Proofs.BdfGenLemmas
 import IvpModel.Proofs.ReflectRk4
+import IvpModel.Proofs.ReflectRk23
 
 noncomputable section
 variable {K : Type} [Field K] [LinearOrder K] [IsStrictOrderedRing K] [SqrtPow K]
@@ -145,6 +146,15 @@ theorem c13_reflect_rk4_whole_run {σ : Type} {n : Nat} (P : Ctl.R4Params K) (f 
     (y0 : Ctl.Vec K n) (h : K) (h0 : h ≠ 0) (fuel : Nat) :
     Ctl.rk4Solve (Ctl.rParams P) (Ctl.rRhs f) (Ctl.rObs ob) obs0 (-x0) y0 (-h) fuel
       = (Ctl.rk4Solve P f ob obs0 x0 y0 h fuel).map Ctl.rResult := Ctl.rk4Solve_reflect P f ob obs0 x0 y0 h h0 fuel
+
+/-- **Whole runs under time reflection (RK23, adaptive).**  From the start — given or automatic first step (`hinit`) — through
+    every accepted and rejected trial: `solve` on the mirrored problem with the mirrored observer is the mirror image of `solve`.
+    Induction over the loop of `Model/RkLoops.lean` (tied to rk23.rs by X-solve); `posneg ≠ 0` is the direction ±1. -/
+theorem c13_reflect_rk23_whole_run {σ : Type} {n : Nat} (P : Ctl.R23Params K n) (f : Ctl.Rhs K n) (ob : Ctl.Obs σ K n) (obs0 : σ) (x0 : K)
+    (y0 : Ctl.Vec K n) (firstStep : Option K) (hmaxArg : K) (hp : P.posneg ≠ 0) (fuel : Nat) :
+    Ctl.rk23Solve (Ctl.rP23 P) (Ctl.rRhs f) (Ctl.rObs ob) obs0 (-x0) y0 firstStep hmaxArg fuel
+      = (Ctl.rk23Solve P f ob obs0 x0 y0 firstStep hmaxArg fuel).map Ctl.rResult :=
+  Ctl.rk23Solve_reflect P f ob obs0 x0 y0 firstStep hmaxArg hp fuel
 
 /-- BDF's norm (translated from bdf.rs) is invariant under a common scaling of values and scales, whatever their size -/
 theorem c13_scale_bdf_norm {n : Nat} (c : K) (hc : c ≠ 0) (values scale : Vector K n) (hnz : ∀ i : Fin n, scale[i] ≠ 0) :
